@@ -64,17 +64,20 @@ func goid() uint64 {
 // ------------------------------------------------------------------ gate
 
 type thread struct {
-	tid, inst int
-	ops       []byte
-	state     int // 0 running, 1 parked, 2 done
-	granted   bool
-	gid       uint64
-	bypass    bool   // gates pass through (release operations, set-up)
-	atStart   bool   // parked at the operation-start gate
-	res       string // result of the operation that completed in the last step
-	resItem   string
-	opDirty   bool
-	own       string
+	tid, inst  int
+	ops        []byte
+	state      int // 0 running, 1 parked, 2 done
+	granted    bool
+	gid        uint64
+	bypass     bool   // gates pass through (release operations, set-up)
+	atStart    bool   // parked at the operation-start gate
+	res        string // result of the operation that completed in the last step
+	resItem    string
+	opDirty    bool
+	wasBlocked bool // was blocked before the last step of somebody else
+	waited     bool // a blk event was reported for the current request
+	blocked    bool // scheduler's cache: seen parked inside a lock since the last step of anybody
+	own        string
 }
 
 type gate struct {
@@ -123,17 +126,10 @@ func (g *gate) enterAt(start bool) {
 	g.mu.Unlock()
 }
 
-func (g *gate) settleLocked(th *thread) {
-	for th.state == 0 && !g.timeout {
-		g.cond.Wait()
-	}
-}
-
-// grant lets the thread run until it parks again or finishes.
-func (g *gate) grant(th *thread) {
+// release lets the parked thread go; it returns once the thread has left the gate.
+func (g *gate) release(th *thread) {
 	g.mu.Lock()
 	defer g.mu.Unlock()
-	g.settleLocked(th)
 	if th.state != 1 {
 		return
 	}
@@ -142,7 +138,141 @@ func (g *gate) grant(th *thread) {
 	for th.granted && !g.timeout {
 		g.cond.Wait()
 	}
-	g.settleLocked(th)
+}
+
+// lockBlocked: which goroutines are parked inside a sync lock operation called from code under
+// test (not from the harness's own gate).  The harness knows nothing about WHICH lock it is.
+var dumpBuf = make([]byte, 1<<16)
+
+var dumpN int
+var dumpT time.Duration
+
+func lockBlocked() map[uint64]bool {
+	t0 := time.Now()
+	defer func() { dumpN++; dumpT += time.Since(t0) }()
+	buf := dumpBuf
+	for {
+		n := runtime.Stack(buf, true)
+		if n < len(buf) {
+			buf = buf[:n]
+			break
+		}
+		dumpBuf = make([]byte, 2*len(buf))
+		buf = dumpBuf
+	}
+	out := map[uint64]bool{}
+	for _, blk := range strings.Split(string(buf), "\n\n") {
+		if !strings.HasPrefix(blk, "goroutine ") {
+			continue
+		}
+		lines := strings.Split(blk, "\n")
+		head := lines[0]
+		f := strings.Fields(head)
+		if len(f) < 3 {
+			continue
+		}
+		id, err := strconv.ParseUint(f[1], 10, 64)
+		if err != nil {
+			continue
+		}
+		st := head[strings.IndexByte(head, '[')+1:]
+		if !(strings.HasPrefix(st, "sync.Mutex.Lock") || strings.HasPrefix(st, "sync.RWMutex.") || strings.HasPrefix(st, "semacquire")) {
+			continue
+		}
+		// first frame that is neither runtime nor sync: it must be code under test
+		for _, ln := range lines[1:] {
+			if strings.HasPrefix(ln, "\t") || strings.HasPrefix(ln, " ") {
+				continue
+			}
+			if strings.HasPrefix(ln, "sync.") || strings.HasPrefix(ln, "runtime.") || strings.HasPrefix(ln, "internal/") {
+				continue
+			}
+			out[id] = !strings.Contains(ln, "tunnox-core/internal/verifharness")
+			break
+		}
+	}
+	return out
+}
+
+// quiesce waits until every thread is parked at a gate, finished, or blocked inside a lock of the
+// code under test (seen in three consecutive goroutine dumps, so that a lock held for an instant by
+// a background goroutine is not mistaken for a wait).
+func (g *gate) quiesce(ths []*thread) {
+	spins, confirm := 0, 0
+	for {
+		g.mu.Lock()
+		var running []*thread
+		for _, th := range ths {
+			if th.state != 0 {
+				th.blocked, th.wasBlocked = false, false
+			} else if !th.blocked {
+				running = append(running, th)
+			}
+		}
+		to := g.timeout
+		g.mu.Unlock()
+		if len(running) == 0 || to {
+			return
+		}
+		onlyOld := true
+		for _, th := range running {
+			if !th.wasBlocked {
+				onlyOld = false
+			}
+		}
+		spins++
+		if spins < 200 && !onlyOld {
+			// give a thread that is simply busy time to reach its next gate before stopping the world
+			// (no time.Sleep here: its granularity is far coarser than a step)
+			runtime.Gosched()
+			continue
+		}
+		bl := lockBlocked()
+		all := true
+		for _, th := range running {
+			if !bl[th.gid] {
+				all = false
+			}
+		}
+		for _, og := range pendingObservers() {
+			if !bl[og] {
+				all = false // an abandoned observation got its lock and is finishing: a writer may be waiting for it
+			}
+		}
+		if all {
+			confirm++
+			// a thread that was already seen blocked and still is after somebody's step needs no
+			// second look; a thread that has just run into a lock does
+			need := 1
+			for _, th := range running {
+				if !th.wasBlocked {
+					need = 3
+				}
+			}
+			if confirm >= need {
+				// a thread blocked in a lock stays so until some other thread takes a step
+				for _, th := range running {
+					th.blocked, th.wasBlocked = true, true
+				}
+				return
+			}
+			for i := 0; i < 20; i++ {
+				runtime.Gosched()
+			}
+		} else {
+			confirm = 0
+			for i := 0; i < 20; i++ {
+				runtime.Gosched()
+			}
+		}
+	}
+}
+
+// stale: a step was taken, so a thread seen blocked before may have been woken.
+func (g *gate) stale(ths []*thread) {
+	for _, th := range ths {
+		th.blocked = false
+	}
 }
 
 // ------------------------------------------------------------------ gated storage (one step = one call)
@@ -215,7 +345,8 @@ type env interface {
 	occupancy() int
 	digest() string
 	items() []string
-	locked(inst int) bool
+	other(th *thread, seq int) string // an admission by ANOTHER client through the same service instance ("" = ran)
+	victimClosed(name string) bool    // the evicted item's resources were released
 	close()
 }
 
@@ -226,8 +357,9 @@ type base struct {
 	cancel context.CancelFunc
 }
 
-func (b *base) locked(int) bool { return false }
-func (b *base) close()          { b.cancel() }
+func (b *base) other(*thread, int) string { return "err:no-other-client" }
+func (b *base) victimClosed(string) bool  { return true }
+func (b *base) close()                    { b.cancel() }
 
 func errTok(err error) string {
 	s := strings.ReplaceAll(err.Error(), " ", "_")
@@ -360,6 +492,202 @@ func (e *ctrlEnv) digest() string {
 	return fmt.Sprint(it, e.occupancy())
 }
 func (e *ctrlEnv) close() { e.sm.Close(); e.cancel() }
+
+// ---- ctrlx: Register with stream doubles whose Close() is a gate
+
+// gatedStream: the only method the registry calls on the stream of an evicted / removed connection
+// is Close(); the harness can stop a thread inside it.
+type gatedStream struct {
+	stream.PackageStreamer
+	g      *gate
+	closed atomic.Bool
+}
+
+func (s *gatedStream) Close() { s.g.enter(); s.closed.Store(true) }
+
+// guarded runs an observation that may need a lock of the code under test.  If the observer ends
+// up parked in such a lock (a thread was stopped inside a critical section) the observation is
+// abandoned: (zero, false).  The abandoned goroutine finishes by itself once the lock is free.
+// observers: abandoned observations that are still waiting for a lock of the code under test.
+// When that lock is released they run before the next writer gets it, so the scheduler must let
+// them finish before it judges whether a thread is still blocked.
+var observers struct {
+	mu   sync.Mutex
+	live map[uint64]bool
+}
+
+func pendingObservers() []uint64 {
+	observers.mu.Lock()
+	defer observers.mu.Unlock()
+	var r []uint64
+	for g := range observers.live {
+		r = append(r, g)
+	}
+	return r
+}
+
+func guarded[T any](f func() T) (T, bool) {
+	type res struct{ v T }
+	ch := make(chan res, 1)
+	gidc := make(chan uint64, 1)
+	go func() {
+		me := goid()
+		observers.mu.Lock()
+		if observers.live == nil {
+			observers.live = map[uint64]bool{}
+		}
+		observers.live[me] = true
+		observers.mu.Unlock()
+		gidc <- me
+		v := f()
+		observers.mu.Lock()
+		delete(observers.live, me)
+		observers.mu.Unlock()
+		ch <- res{v}
+	}()
+	gid := <-gidc
+	confirm := 0
+	for spins := 0; ; spins++ {
+		select {
+		case r := <-ch:
+			return r.v, true
+		default:
+		}
+		if spins < 200 {
+			runtime.Gosched()
+			continue
+		}
+		if lockBlocked()[gid] {
+			confirm++
+			if confirm >= 3 {
+				var zero T
+				return zero, false
+			}
+		} else {
+			confirm = 0
+		}
+		for i := 0; i < 20; i++ {
+			runtime.Gosched()
+		}
+	}
+}
+
+type ctrlxSnap struct {
+	n     int
+	items []string
+}
+
+type ctrlxEnv struct {
+	base
+	reg      *session.ClientRegistry
+	seq      int64
+	known    []string
+	admitted map[string]bool
+	streams  map[string]*gatedStream
+	mu       sync.Mutex
+
+	cached    ctrlxSnap
+	snapEpoch int64
+	haveSnap  bool
+}
+
+// epoch counts the moments at which state may have changed (a thread was let go, or has settled).
+var epoch atomic.Int64
+
+// register: the harness reads nothing back from the registry here (that would need its lock, which
+// the next thread in line may already hold): Register's own answer says whether the connection is in.
+func (e *ctrlxEnv) register(name string) bool {
+	e.mu.Lock()
+	e.seq++
+	seq := e.seq
+	e.known = append(e.known, name)
+	st := &gatedStream{g: e.g}
+	e.streams[name] = st
+	e.mu.Unlock()
+	cc := session.NewControlConnection(name, st, nil, "tcp")
+	cc.CreatedAt = time.Unix(1700000000+seq, 0)
+	err := e.reg.Register(cc)
+	if err == nil {
+		e.mu.Lock()
+		e.admitted[name] = true
+		e.mu.Unlock()
+	}
+	return err == nil
+}
+func (e *ctrlxEnv) setup() error {
+	e.streams = map[string]*gatedStream{}
+	e.admitted = map[string]bool{}
+	e.reg = session.NewClientRegistry(&session.ClientRegistryConfig{MaxConnections: e.k.limit})
+	for i := 0; i < e.k.pre; i++ {
+		if !e.register(fmt.Sprintf("p%d", i)) {
+			return fmt.Errorf("prefill refused")
+		}
+	}
+	epoch.Add(1)
+	if e.occupancy() != e.k.pre {
+		return fmt.Errorf("prefill evicted")
+	}
+	return nil
+}
+func (e *ctrlxEnv) admit(th *thread, name string) (bool, string) { return e.register(name), "" }
+func (e *ctrlxEnv) release(th *thread, name string) bool         { return false }
+
+// snap: what the registry says, if it can be asked; while a thread is stopped inside the registry's
+// critical section nobody can ask (any observer would wait for the lock), and the harness falls back
+// to what it knows without the lock: connections whose Register succeeded and whose stream has not
+// been closed by an eviction.
+func (e *ctrlxEnv) snap() ctrlxSnap {
+	// nothing moves between two steps: one observation per step boundary is enough
+	if ep := epoch.Load(); e.haveSnap && e.snapEpoch == ep {
+		return e.cached
+	}
+	s := e.snapNow()
+	e.cached, e.snapEpoch, e.haveSnap = s, epoch.Load(), true
+	return s
+}
+
+func (e *ctrlxEnv) snapNow() ctrlxSnap {
+	e.mu.Lock()
+	known := append([]string(nil), e.known...)
+	e.mu.Unlock()
+	s, ok := guarded(func() ctrlxSnap {
+		var r ctrlxSnap
+		r.n = e.reg.Count()
+		for _, n := range known {
+			if e.reg.GetByConnID(n) != nil {
+				r.items = append(r.items, n)
+			}
+		}
+		return r
+	})
+	if ok {
+		return s
+	}
+	e.mu.Lock()
+	defer e.mu.Unlock()
+	var r ctrlxSnap
+	for _, n := range known {
+		if e.admitted[n] && !e.streams[n].closed.Load() {
+			r.items = append(r.items, n)
+		}
+	}
+	r.n = len(r.items)
+	return r
+}
+func (e *ctrlxEnv) occupancy() int  { return e.snap().n }
+func (e *ctrlxEnv) items() []string { return e.snap().items }
+func (e *ctrlxEnv) digest() string {
+	s := e.snap()
+	it := append([]string(nil), s.items...)
+	sort.Strings(it)
+	return fmt.Sprint(it, s.n)
+}
+func (e *ctrlxEnv) victimClosed(name string) bool {
+	e.mu.Lock()
+	defer e.mu.Unlock()
+	st := e.streams[name]
+	return st != nil && st.closed.Load()
+}
 
 // ---- tun
 
@@ -535,14 +863,8 @@ func (e *mapEnv) release(th *thread, name string) bool {
 	return true
 }
 
-// occupancy: live tunnels of the mapping, or the slot counter if it is larger (a leaked slot)
-func (e *mapEnv) occupancy() int {
-	n := e.h.GetTunnelManager().CountTunnels()
-	if c := e.h.VerifActiveConnCount(); c > n {
-		n = c
-	}
-	return n
-}
+// occupancy: live tunnels of the mapping (exported tunnel manager; the slot counter is private)
+func (e *mapEnv) occupancy() int { return e.h.GetTunnelManager().CountTunnels() }
 func (e *mapEnv) items() []string {
 	e.mu.Lock()
 	defer e.mu.Unlock()
@@ -553,7 +875,7 @@ func (e *mapEnv) items() []string {
 	return r
 }
 func (e *mapEnv) digest() string {
-	return fmt.Sprintf("%d/%d", e.h.GetTunnelManager().CountTunnels(), e.h.VerifActiveConnCount())
+	return fmt.Sprintf("%d", e.h.GetTunnelManager().CountTunnels())
 }
 func (e *mapEnv) close() {
 	e.mu.Lock()
@@ -658,8 +980,13 @@ func (e *codeEnv) items() []string {
 	return r
 }
 func (e *codeEnv) digest() string { return storeDigest(e.raw) }
-func (e *codeEnv) locked(inst int) bool {
-	return e.svcs[inst].VerifCodeQuotaLocked()
+func (e *codeEnv) other(th *thread, seq int) string {
+	// refused or admitted there: either way it is not this client's business
+	_, err := e.svcs[th.inst].CreateConnectionCode(&conncode.CreateRequest{TargetClientID: int64(66000000 + seq), TargetAddress: "tcp://127.0.0.1:80", CreatedBy: "h"})
+	if err != nil && !coreerrors.IsCode(err, coreerrors.CodeQuotaExceeded) {
+		return errTok(err)
+	}
+	return ""
 }
 
 // ---- mapq : per-client quota on active mappings
@@ -828,7 +1155,17 @@ func (e *mapqEnv) digest() string {
 	sort.Strings(ks)
 	return strings.Join(ks, "\x00")
 }
-func (e *mapqEnv) locked(inst int) bool { return e.svcs[inst].VerifMappingQuotaLocked() }
+func (e *mapqEnv) other(th *thread, seq int) string {
+	code, err := e.freshCode()
+	if err != nil {
+		return errTok(err)
+	}
+	_, err = e.svcs[th.inst].ActivateConnectionCode(&conncode.ActivateRequest{Code: code, ListenClientID: int64(44000000 + seq), ListenAddress: "0.0.0.0:7000"})
+	if err != nil && !coreerrors.IsCode(err, coreerrors.CodeQuotaExceeded) {
+		return errTok(err)
+	}
+	return ""
+}
 
 // ------------------------------------------------------------------ case
 
@@ -871,7 +1208,7 @@ func (t *toks) want(s string) {
 	}
 }
 
-var zeroUnl = map[string]bool{"conn": true, "ctrl": true, "tun": true, "map": true, "mapu": true, "code": false, "mapq": false}
+var zeroUnl = map[string]bool{"conn": true, "ctrl": true, "ctrlx": true, "tun": true, "map": true, "mapu": true, "code": false, "mapq": false}
 
 func parseCase(s string) (*kase, bool) {
 	t := &toks{t: strings.Fields(s)}
@@ -913,6 +1250,14 @@ func parseCase(s string) (*kase, bool) {
 			for j := 0; j < nops && !t.e; j++ {
 				switch c := t.next(); c {
 				case "a", "r":
+					if c == "r" && k.proto == "ctrlx" {
+						t.e = true // registrations only (a removal would be stopped inside its own Close())
+					}
+					th.ops = append(th.ops, c[0])
+				case "o":
+					if k.proto != "code" && k.proto != "mapq" {
+						t.e = true // only the per-client quotas have other clients
+					}
 					th.ops = append(th.ops, c[0])
 				default:
 					t.e = true
@@ -944,6 +1289,8 @@ func newEnv(k *kase, g *gate) env {
 		return &connEnv{base: b}
 	case "ctrl":
 		return &ctrlEnv{base: b}
+	case "ctrlx":
+		return &ctrlxEnv{base: b}
 	case "tun":
 		return &tunEnv{base: b}
 	case "map":
@@ -960,6 +1307,36 @@ func newEnv(k *kase, g *gate) env {
 
 var timeouts int
 
+// watchdog per gated case; a case takes milliseconds, so a timeout means a hang - or a machine so
+// loaded that the process was not run: execAny repeats a timed-out case once with a long watchdog
+// (the repeat is a fresh execution of the same input; its verdict is the one reported).
+var watchdog = 10 * time.Second
+
+// missing: items of `before` that are not in `after`.
+func missing(before, after []string) []string {
+	now := map[string]bool{}
+	for _, x := range after {
+		now[x] = true
+	}
+	var r []string
+	for _, x := range before {
+		if !now[x] {
+			r = append(r, x)
+		}
+	}
+	return r
+}
+
+var allProcs = runtime.GOMAXPROCS(0)
+var curProcs = allProcs
+
+func setProcs(n int) {
+	if n != curProcs {
+		runtime.GOMAXPROCS(n)
+		curProcs = n
+	}
+}
+
 // ------------------------------------------------------------------ gated executor
 
 func execCase(cs string) (obs string) {
@@ -968,8 +1345,10 @@ func execCase(cs string) (obs string) {
 		return "bad-case"
 	}
 	if k.free {
+		setProcs(allProcs) // races need real parallelism
 		return execFree(k)
 	}
+	setProcs(2) // one thread runs at a time; stopping the world for a goroutine dump is cheap with few Ps
 	g := newGate()
 	e := newEnv(k, g)
 	defer func() {
@@ -990,6 +1369,7 @@ func execCase(cs string) (obs string) {
 	}
 	next := k.pre
 	var evs []string
+	fusedLock := k.proto == "ctrlx" // Lock() is not followed by a gate: it is part of the first step
 
 	runThread := func(th *thread) {
 		defer func() {
@@ -1017,6 +1397,15 @@ func execCase(cs string) (obs string) {
 					th.res, th.resItem, th.own = "adm", name, name
 				default:
 					th.res = "ref"
+				}
+				g.mu.Unlock()
+			case 'o':
+				et := e.other(th, th.tid*100+i)
+				g.mu.Lock()
+				if et != "" {
+					th.res = et
+				} else {
+					th.res = "oth"
 				}
 				g.mu.Unlock()
 			case 'r':
@@ -1051,37 +1440,49 @@ func execCase(cs string) (obs string) {
 				runThread(th)
 			}()
 			<-started
-			g.mu.Lock()
-			g.settleLocked(th)
-			g.mu.Unlock()
+			g.quiesce(k.threads[:th.tid+1])
 		}
 		for _, tid := range k.sched {
 			if tid < 0 || tid >= len(k.threads) {
 				continue
 			}
 			th := k.threads[tid]
+			g.quiesce(k.threads)
 			g.mu.Lock()
-			g.settleLocked(th)
 			st, atStart := th.state, th.atStart
 			g.mu.Unlock()
-			if st != 1 {
+			if st == 2 {
 				continue // finished program: the step changes nothing
 			}
-			if atStart && e.locked(th.inst) {
-				// the critical section is occupied: the request waits
+			if st == 0 {
+				// still blocked inside a lock of the code under test: the request keeps waiting
+				th.waited = true
 				evs = append(evs, fmt.Sprintf("blk.%d.%d", tid, e.occupancy()))
 				continue
 			}
+			if th.waited && !atStart && fusedLock {
+				// the request was handed the lock and ran on by itself to its first gate inside the
+				// critical section: that was its entry step
+				th.waited = false
+				evs = append(evs, fmt.Sprintf("stp.%d.%d", tid, e.occupancy()))
+				continue
+			}
+			th.waited = false
 			if atStart {
 				th.opDirty = false
 			}
 			before := e.digest()
 			itemsBefore := e.items()
-			g.grant(th)
+			epoch.Add(1)
+			g.release(th)
+			g.stale(k.threads)
+			g.quiesce(k.threads)
+			epoch.Add(1)
 			after := e.digest()
 			g.mu.Lock()
 			res, item := th.res, th.resItem
 			th.res, th.resItem = "", ""
+			stNow := th.state
 			g.mu.Unlock()
 			if before != after {
 				th.opDirty = true
@@ -1089,6 +1490,21 @@ func execCase(cs string) (obs string) {
 			n := e.occupancy()
 			switch res {
 			case "":
+				gone := missing(itemsBefore, e.items())
+				switch {
+				case stNow == 0:
+					// the step ended inside Lock(): the request queues up behind the holder
+					th.waited = true
+					evs = append(evs, fmt.Sprintf("blk.%d.%d", tid, n))
+				case len(gone) == 1:
+					// an item left in a step of its own (eviction not in the critical section of the insert)
+					evs = append(evs, fmt.Sprintf("evi.%d.%d.%d", tid, num[gone[0]], n))
+				case len(gone) > 1:
+					evs = append(evs, fmt.Sprintf("evi-many.%d", tid))
+				default:
+					evs = append(evs, fmt.Sprintf("stp.%d.%d", tid, n))
+				}
+			case "oth":
 				evs = append(evs, fmt.Sprintf("stp.%d.%d", tid, n))
 			case "adm":
 				num[item] = next
@@ -1107,6 +1523,9 @@ func execCase(cs string) (obs string) {
 				v := "-"
 				if len(victims) == 1 {
 					v = strconv.Itoa(num[victims[0]])
+					if !e.victimClosed(victims[0]) {
+						v = "unclosed"
+					}
 				} else if len(victims) > 1 {
 					v = "many"
 				}
@@ -1128,8 +1547,7 @@ func execCase(cs string) (obs string) {
 	}()
 	select {
 	case <-done:
-	case <-time.After(10 * time.Second):
-		timeouts++
+	case <-time.After(watchdog):
 		g.mu.Lock()
 		g.timeout = true
 		g.cond.Broadcast()
@@ -1307,7 +1725,20 @@ func execAny(cs string) string {
 	if strings.TrimSpace(cs) == "caps" {
 		return execCaps()
 	}
-	return execCase(cs)
+	run := execCase
+	if strings.HasPrefix(strings.TrimSpace(cs), "slot ") {
+		run = execSlot
+	}
+	obs := run(cs)
+	if obs == "timeout" {
+		watchdog = 90 * time.Second
+		obs = run(cs)
+		watchdog = 10 * time.Second
+		if obs == "timeout" {
+			timeouts++
+		}
+	}
+	return obs
 }
 
 // ------------------------------------------------------------------ main
@@ -1338,8 +1769,11 @@ func main() {
 			return
 		}
 		obs := execAny(cs)
+		if os.Getenv("C17_DEBUG") != "" && out.Cases%500 == 0 {
+			fmt.Fprintf(os.Stderr, "cases=%d goroutines=%d\n", out.Cases, runtime.NumGoroutine())
+		}
 		dk := ""
-		if strings.Contains(cs, " thr ") || strings.HasPrefix(cs, "free") {
+		if strings.Contains(cs, " thr ") || strings.HasPrefix(cs, "free") || strings.HasPrefix(cs, "slot") {
 			dk = cs
 		}
 		out.Case(key+cs, obs, dk)
@@ -1347,6 +1781,8 @@ func main() {
 		if len(f) > 2 {
 			if f[0] == "free" {
 				out.Count("free/" + f[2])
+			} else if f[0] == "slot" {
+				out.Count("proto/slot")
 			} else {
 				out.Count("proto/" + f[1])
 			}
@@ -1377,6 +1813,9 @@ func main() {
 	}
 	if *nogen == "" {
 		generate(common.NewRand(*seed), *tier, emit)
+	}
+	if os.Getenv("C17_DEBUG") != "" {
+		fmt.Fprintf(os.Stderr, "dumps=%d time=%v\n", dumpN, dumpT)
 	}
 	out.Finish(*stats, nil)
 }
